@@ -2,6 +2,8 @@
 """regenerates MANIFEST.json from the table below (kept valid at all times)"""
 import json
 CLAIMED = {
+ "C10": ("GC transparency: Trace completeness of every workspace type (no GC edge in a field the trace body skips), WeakRef kept-alive protocol",
+         "type reachability fixpoint over ADT facts + MIR field-visit analysis of every Trace impl; path rules for AddToKeptObjects/ClearKeptObjects", "§5 C10"),
  "C03": ("compiled code blocks: register linearity and frame size, scope / jump-control / handler pairing on every compiler path, binding-reference window, labels consumed",
          "typestate/pairing rules over drop-elaborated MIR (path-sensitive must-pass-through, who-may-write)", "§5 C03"),
  "C07": ("VM balance: frame push/pop pairing, value-stack truncation on frame removal and in the unwinding protocol, host pushes removed on failure, depth/realm/stack-swap pairs",
